@@ -334,7 +334,7 @@ def run_case(case):
 def gen_cases(tier, seed):
     cases = []
     names = QUICK_SCRIPTS if tier == "quick" else [n for n in sorted(corpus()) if n not in ("login_quit", "nologin", "login_pw", "login_bad_pw", "abor_idle", "misc", "flood")]
-    excs = ["eio", "fault"] if tier == "quick" else ["eio", "enospc", "eacces", "fault", "value", "timeout"]
+    excs = ["eio", "fault", "timeout"] if tier == "quick" else ["eio", "enospc", "eacces", "fault", "value", "timeout"]
     for name in names:
         for i, exc in enumerate(excs):
             cases.append({"kind": "enum_k", "plan": {"script": name, "exc": exc, "seed": seed}})
